@@ -21,6 +21,31 @@ PROPS = os.environ.get('VERIF_MATRIX_PROPS', '').split() or ['C%02d' % i for i i
 TIMEOUT = int(os.environ.get('VERIF_ORACLE_TIMEOUT', '240'))
 
 
+MODULE_PROPS = {
+    'src/adsr.rs': 'C01 C02 C03 C17 C20', 'src/phase_accumulator.rs': 'C01 C02 C03 C10 C11 C12 C17',
+    'src/utils.rs': 'C01 C02 C03 C10 C11 C12 C13 C14 C17', 'src/lookup_tables.rs': 'C01 C03 C10 C12 C17',
+    'src/lfo.rs': 'C10 C11 C12 C17', 'src/mono_midi_receiver.rs': 'C04 C05 C06 C17 C18 C20',
+    'src/quantizer.rs': 'C07 C08 C09 C17 C19 C20', 'src/ribbon_controller.rs': 'C15 C16 C17',
+    'src/glide_processor.rs': 'C13 C14 C17',
+}
+
+
+def props_for(patch):
+    """with VERIF_MATRIX_BY_MODULE=1: only the properties anchored in the files the patch touches (a change to the
+    quantizer cannot move a MIDI property); otherwise all"""
+    if patch == 'CLEAN' or not os.environ.get('VERIF_MATRIX_BY_MODULE'):
+        return PROPS
+    sel = set()
+    for l in open(patch):
+        if l.startswith('+++ '):
+            f = l[4:].strip().split('\t')[0]
+            f = f[2:] if f[:2] in ('a/', 'b/') else f
+            if f not in MODULE_PROPS:
+                return PROPS
+            sel |= set(MODULE_PROPS[f].split())
+    return [p for p in PROPS if p in sel]
+
+
 def one(patch):
     tmp = tempfile.mkdtemp(prefix='orc-')
     env = dict(os.environ, CARGO_NET_OFFLINE='true', CARGO_TARGET_DIR=os.path.join(tmp, 'target'))
@@ -34,14 +59,14 @@ def one(patch):
             if r.returncode != 0:
                 return patch, {'error': 'patch does not apply'}
         os.makedirs(os.path.join(tmp, 'tests'))
-        for p in PROPS:
+        for p in props_for(patch):
             shutil.copy(os.path.join(ORACLES, p + '.rs'), os.path.join(tmp, 'tests', 'oracle_%s.rs' % p))
         out = {}
         b = subprocess.run(['cargo', 'test', '--offline', '--no-run', '--tests', '-q'], cwd=tmp, env=env, stdout=subprocess.PIPE, stderr=subprocess.STDOUT, text=True)
         if b.returncode != 0:
             # build each oracle separately: one oracle that does not compile against the changed API must not hide the others
             pass
-        for p in PROPS:
+        for p in props_for(patch):
             try:
                 r = subprocess.run(['cargo', 'test', '--offline', '-q', '--test', 'oracle_%s' % p], cwd=tmp, env=env, stdout=subprocess.PIPE, stderr=subprocess.STDOUT, text=True, timeout=TIMEOUT)
                 if r.returncode == 0:
